@@ -175,6 +175,24 @@ def consumed_length(chk: Check, repo: Repo, mr: MayRaise, lbd: LowerBound) -> No
     cells.append((bytes((hl, ver)) + bad_svc.to_bytes(2, "big"), "CouldNotParseKNXIP", "four octets, unknown service type"))
     cells.append((bytes((hl, ver)) + bad_svc.to_bytes(2, "big") + b"\x00", "CouldNotParseKNXIP", "five octets, unknown service type"))
     cells.append((bytes((hl ^ 1, ver)) + good_svc.to_bytes(2, "big") + b"\x00", "CouldNotParseKNXIP", "five octets, wrong header length octet"))
+    # service types the frame dispatch has no body class for: no continuation of their header is a frame either
+    ff = repo.func(M, "KNXIPFrame.from_knx")
+    handled = {n.comparators[0].attr for n in ast.walk(ff.node) if isinstance(n, ast.Compare) and len(n.ops) == 1 and isinstance(n.ops[0], ast.Eq) and isinstance(n.comparators[0], ast.Attribute) and ast.unparse(n.comparators[0].value).endswith("KNXIPServiceType")}
+    members = repo.enum_members(st)
+    unimpl = sorted(v for k, v in members.items() if isinstance(v, int) and k not in handled)
+    chk.count("service types without a body class", len(unimpl))
+    if unimpl:
+        u = unimpl[0]
+        cells.append((bytes((hl, ver)) + u.to_bytes(2, "big"), "CouldNotParseKNXIP", "four octets, unimplemented service type"))
+        cells.append((bytes((hl, ver)) + u.to_bytes(2, "big") + b"\x00", "CouldNotParseKNXIP", "five octets, unimplemented service type"))
+        # ... and with the whole header there: the dispatch decides before a missing remainder is reported
+        fc = CFG(ff.node)
+        inc = [n.id for n in fc.nodes if n.kind == "stmt" and isinstance(n.ast, ast.Raise) and n.ast.exc is not None and "IncompleteKNXIPFrame" in ast.unparse(n.ast.exc)]
+        # the local the frame is built from (`KNXIPFrame(header=.., body=<local>)`), whatever it is called
+        bl = next((k.value.id for c in calls(ff.node) if call_name(c) == "KNXIPFrame" for k in c.keywords if k.arg == "body" and isinstance(k.value, ast.Name)), None)
+        bodies = [n.id for n in fc.nodes if n.kind == "stmt" and isinstance(n.ast, ast.Assign) and isinstance(n.ast.targets[0], ast.Name) and n.ast.targets[0].id == bl]
+        ok_d = bool(inc) and bool(bodies) and all(fc.all_paths_hit(fc.entry, bodies, [i_], edge_ok=fc.normal_only) for i_ in inc)
+        chk.ob("incomplete-only-when-more-octets-help", ff.site(), ok_d, "KNXIPFrame.from_knx reports a missing remainder only after the service type was found to have a body class" if ok_d else "KNXIPFrame.from_knx reports `incomplete` before it looks at the service type: a truncated frame of an unimplemented service (06100533...) is 'incomplete' although every completion is refused", key="incomplete|after-dispatch")
     for data, want, label in cells:
         paths = Explorer(hc, repo, am.step).run(hc.entry, [], {hfk.node.args.args[1].arg: data})
         got = sorted({(p_.end_kind, str(p_.env.get("#raised"))) for p_ in paths})
